@@ -178,6 +178,22 @@ func suiteDiffReport(c *Ctx) error {
 		oldSrc += lookalike
 		newSrc += lookalike
 		plan = append(plan, plannedFn{"Kill", "Kill", "kept"}, plannedFn{"\u212aill", "\u212aill", "kept"}, plannedFn{"Aim", "Aim", "kept"}, plannedFn{"\uff21im", "\uff21im", "kept"})
+		// duplicated functions given the SAME edit (copy-pasted handlers, generated accessors): three
+		// name-matched pairs with one old body and one new body - whatever is computed once per pair of
+		// bodies, every pair still gets its own entry under its own name
+		{
+			k := 2 + rr.Intn(6)
+			dup := func(mul int) string {
+				var sb strings.Builder
+				for _, nm := range []string{"DupFirst", "DupSecond", "DupThird"} {
+					fmt.Fprintf(&sb, "func %s(x int, xs []int) int {\n\tif x > 1 {\n\t\treturn x * %d\n\t}\n\tfor _, v := range xs {\n\t\tx += v\n\t}\n\treturn x\n}\n\n", nm, mul)
+				}
+				return sb.String()
+			}
+			oldSrc += dup(k)
+			newSrc += dup(k + 1)
+			plan = append(plan, plannedFn{"DupFirst", "DupFirst", "edited"}, plannedFn{"DupSecond", "DupSecond", "edited"}, plannedFn{"DupThird", "DupThird", "edited"})
+		}
 		// function literals in package-level variable initialisers (closures of the synthetic init)
 		{
 			k := 3 + rr.Intn(5)
